@@ -15,9 +15,52 @@ CFGS = [("native", {}), ("native", {"SODIUM_VERIF_CPUID1_ECX_CLEAR": "0x10000000
         ("no128", {"SODIUM_VERIF_CPUID1_EDX_CLEAR": "0x4000000"}), ("portable", {})]
 
 
+MP_ALGS = ["sha256", "sha512", "blake2b", "blake2bk"]
+
+
+def streaming(R, thorough):
+    """the buffering state machines: exhaustive splits on the scaled model, then the counters of the real state
+    structures after every update validated against the same machines with the real block sizes"""
+    st = gen = 0
+    for cfg in ("MCStreamingMd.cfg", "MCStreamingBlake.cfg", "MCStreamingBlakeKeyed.cfg"):
+        r = R.tlc("sys/Streaming.tla", cfg, workers=4, timeout=900)
+        if r.violated:
+            R.violation("Streaming.tla: a split changes the compressed block sequence (%s): %s" % (cfg, r.tail(30)), r.out, name="model")
+        st += r.distinct; gen += r.generated
+    for cfg in ("MCStreamingMdBroken.cfg", "MCStreamingBlakeBroken.cfg"):
+        if not R.tlc("sys/Streaming.tla", cfg, workers=2, timeout=600).violated:
+            raise vlib.MachineryError("vacuity: %s is not rejected" % cfg)
+    envs, meta = [], []
+    for variant in ("native", "portable"):
+        exe = R.cc("mp_driver", ["mp_driver.c"], variant)
+        for a in MP_ALGS:
+            out = R.path("mp", "%s-%s.ndjson" % (variant, a))
+            R.run([exe, str(R.seed), a, "400" if thorough else "80", out], ok_codes=(0, 70))
+            envs.append({"TRACE": out}); meta.append((variant, a, out))
+    import re
+    from concurrent.futures import ThreadPoolExecutor
+    with ThreadPoolExecutor(max_workers=8) as ex:
+        res = list(ex.map(lambda m: R.tlc("sys/TraceStreaming.tla", "TraceStreaming_%s.cfg" % m[1], env={"TRACE": m[2]}, timeout=1800, heap="3g",
+                                          extra=(), tag="ts-%s-%s" % (m[0], m[1])), meta))
+    lines = 0
+    for (variant, a, out), tr in zip(meta, res):
+        evs = open(out).read().splitlines()
+        lines += len(evs)
+        m = re.search(r'"REJECTED at line",\s*(\d+)', tr.out)
+        if m or tr.violated or not tr.ok:
+            k = int(m.group(1)) if m else 0
+            R.violation("multi-part %s (%s build): the state after an update / the final digest is not what Streaming.tla allows: %s"
+                        % (a, variant, (evs[k - 1] if 0 < k <= len(evs) else tr.tail(8))[:300]),
+                        {"alg": a, "variant": variant, "events": evs[max(0, k - 6):k + 1]}, name="streaming")
+    R.cov["streaming_model"] = {"module": "Streaming", "distinct": st, "generated": gen, "broken_variants_rejected": 2,
+                                "trace_events_validated": lines, "algorithms": MP_ALGS}
+    return lines
+
+
 def run(R):
     thorough = R.tier == "thorough"
     R.build_all(sorted({v for v, _ in CFGS}))
+    nstream = streaming(R, thorough)
     files = []
     for i, (variant, env) in enumerate(CFGS):
         exe = R.cc("hash_driver", ["hash_driver.c"], variant, extra=["-Wno-deprecated-declarations"])
@@ -43,7 +86,7 @@ def run(R):
                     % (b["op"], len(b.get("outs", [])), len(b.get("m", []))), b, name="hash")
     R.cov.update({"evaluations": forms, "distinct_nontrivial": len(distinct),
                   "rule": "evaluations = API executions (one-shot + every chunking) summarised in the records; distinct_nontrivial = distinct (function, output length, key length, non-empty message) inputs judged byte-exactly by TLC; messages: random / all-00 / all-ff at the listed lengths, crafted Poly1305 accumulators",
-                  "records": total, "configurations": ["%s %s" % c for c in CFGS]})
+                  "records": total, "traces_validated_against_impl": nstream, "configurations": ["%s %s" % c for c in CFGS]})
     R.sample_line(files[0], 3, drop=("m",))
     R.assumptions += ["spec modules anchored against hashlib / OpenSSL vectors in spec/anchors"]
 
